@@ -118,6 +118,8 @@ package engine
 
 // ---- RelationManager: trusted interface contracts (what the engine relies on) ----
 
+// What building or flushing a store may change, as seen from the engine (storage's treeState and cacheState, the data file model).
+//@ spec modset storeHeap = all(storage.btreeNode.offsets), all(storage.btreeNode.leafCells), all(storage.btreeNode.internalCells), all(storage.btreeNode.rightOffset), all(storage.btreeNode.dirty), all(storage.btreeNode.lastLSN), all(storage.btreeNode.hasRSib), all(storage.btreeNode.hasLSib), all(storage.btreeNode.rSibFileOffset), all(storage.btreeNode.lSibFileOffset), all(storage.leafCell.valueBytes), all(storage.leafCell.valueSize), all(storage.leafCell.pg), all(storage.leafCell.deleted), allelems(uint16), allelems(*storage.leafCell), allelems(*storage.internalCell), listLen, listAt, listPos, listOf, all(storage.cacheEntry.val), cachemaps(0), written, fdata, fsize, catRoot
 //@ ghost var txn int
 //@ ghost var walFlushes int
 //@ ghost var rowsApplied int
@@ -422,8 +424,9 @@ package engine
 
 //@ func EvaluateCreateDatabase(q sql.CreateDatabase) error
 //@   props C17 C18
-//@   modifies storeState, openStores
-//@   ensures openStores == old(openStores)
+//@   requires txn == 0
+//@   modifies storeState, openStores, txn, @storeHeap
+//@   ensures openStores == old(openStores) && txn == 0
 
 //@ func EvaluateShowDatabase(q sql.ShowDatabase) ([]*storage.Row, []*storage.Field, error)
 //@   props C17 C18
@@ -440,7 +443,7 @@ package engine
 //@ func (s *Session) ExecQuery(q string) error
 //@   props C17 C18 C13 C14
 //@   requires txn == 0 && sessInv(s)
-//@   modifies s.CurDB, s.RelationService, txn, storeState, walFlushes, rowsApplied, entryCount, seq, openStores, listLen, listAt, listPos, listOf, all(storage.Row.Vals), all(storage.Field.Column), allelems(any), allelems(*storage.Row)
+//@   modifies s.CurDB, s.RelationService, txn, storeState, walFlushes, rowsApplied, entryCount, seq, openStores, @storeHeap, all(storage.Row.Vals), all(storage.Field.Column), allelems(any), allelems(*storage.Row)
 //@   ensures[unlock; C13] txn == 0
 //@   ensures[inv; C17 C18] sessInv(s)
 //@   ensures[errorframe; C17] result != nil && openStores == old(openStores) ==> s.CurDB == old(s.CurDB) && s.RelationService == old(s.RelationService)
